@@ -58,6 +58,11 @@ def explore(chk):
         ncap = rng.randint(1, 6)
         tight = (i % 4 == 3)
         caps_text = [[gen_line(rng) for _ in range(rng.randint(1, 3))] for _ in range(ncap)]
+        if i % 25 == 7:
+            # a caption that fills the screen: 13, 14 or all 15 rows (short lines, or long words that wrap)
+            k = rng.choice([13, 14, 15, 15])
+            caps_text[rng.randrange(ncap)] = ["row %d" % j for j in range(k)] if rng.random() < 0.6 else \
+                [" ".join(["abcdefghijklmnopq"] * 4)] * 3 + [" ".join(["abcdefghijklmnopq"] * (k - 12))]
         # lay out with the real library step to know the transmission time each caption needs
         w = SCCWriter()
         tmp = capio.build_set({"en-US": [(0, 1, capio.nodes_from_lines(ls)) for ls in caps_text]})
